@@ -25,10 +25,37 @@ def leak_of(before, step):
 
 
 def leak_signature(cmd, step, changed, nlines):
-    op = cmd[0]
+    """Site of a rejected-but-not-atomic call: call kind | exception | which group of fields leaked.
+    Sites the unchanged code is known to have are listed in known_findings.json; any other
+    combination keeps its raw field list and is reported as a violation."""
+    op, exc, ch = cmd[0], step["exc"], set(changed)
+    mode_lines = (op == "move_abs" and nlines == 2 and all(("G90" in r or "G91" in r) for r in step["raw"]))
+    if exc == "ValueErr" and (nlines == 0 or mode_lines):
+        tail = "+G90/G91-emitted" if mode_lines else ""
+        if op in ("move", "move_abs"):
+            if ch and ch <= {"feed", "power"}:
+                return "move|ValueErr|F/S-words-committed-before-rejection" + tail
+            if ch and ch <= {"pos", "params", "sparams", "feed", "power"}:
+                return "move|ValueErr|position/parameters-committed-before-axes-bounds-rejection" + tail
+            if not ch and mode_lines:
+                return "move_abs|ValueErr|G90/G91-emitted-around-rejected-move"
+        if op in ("set_axis", "home") and ch and ch <= {"pos", "params", "sparams"}:
+            return "%s|ValueErr|position/parameters-committed-before-axes-bounds-rejection" % op
+        if op == "probe" and ch and ch <= {"pos", "spos", "params", "sparams", "feed", "power"}:
+            return "probe|ValueErr|position-masked-before-F/S-rejection"
+        if op == "tool_on" and ch and ch <= {"power", "spin", "tool_on"}:
+            return "tool_on|ValueErr|state-committed-before-non-finite-speed-rejected"
+        if op == "power_on" and ch and ch <= {"power", "powerm", "tool_on"}:
+            return "power_on|ValueErr|state-committed-before-non-finite-power-rejected"
+        if op == "set_feed" and ch == {"feed"}:
+            return "set_feed|ValueErr|feed-committed-before-non-finite-value-rejected"
+        if op == "set_power" and ch == {"power"}:
+            return "set_power|ValueErr|power-committed-before-non-finite-value-rejected"
+        if op == "halt" and ch and ch <= {"halt", "t_bed", "t_hotend", "t_chamber"}:
+            return "halt|ValueErr|halt-mode/temperature-committed-before-rejection"
     if op in ("move", "move_abs"):
         op = op + ":" + cmd[1]
-    return "%s|%s|%s|lines=%d" % (op, step["exc"], "+".join(sorted(changed)), nlines)
+    return "%s|%s|%s|lines=%d" % (op, exc, "+".join(sorted(changed)), nlines)
 
 
 INIT_SNAP = None
@@ -88,7 +115,7 @@ def shrink(pid, dp, cmds, fails, max_rounds=3):
 
 def run_builder_check(pid, gen_cases, oracle_fn, fields=None, truncate_at_leak=True, rule="",
                       corpus=(), extra_evidence=None, theorem_names="", compare_model=True,
-                      classify=None):
+                      classify=None, oracle_only_cases=None):
     """gen_cases(run) -> list of (dp, cmds); oracle_fn(dp, cmds, steps, upto) -> list of (step index, msg, signature)
     """
     run = Run(pid)
@@ -146,6 +173,23 @@ def run_builder_check(pid, gen_cases, oracle_fn, fields=None, truncate_at_leak=T
         if ci in (1, 3, 10):
             run.sample(dict(dp=dp, history=[cmd_json(c) for c in cmds[:8]],
                             emitted=[s["raw"] for s in steps[:8]], exceptions=[s["exc"] for s in steps[:8]]))
+    # histories with commands outside the model (real tracer shapes): oracle only ----------
+    n_oracle_only = 0
+    if oracle_only_cases is not None and not run.replay:
+        for ci, (dp, cmds) in enumerate(oracle_only_cases(run)):
+            steps = ImplRun(dp, style=0).run(cmds)
+            upto = annotate_leaks(cmds, steps) if truncate_at_leak else None
+            n_oracle_only += 1
+            run.count((dp, repr(cmds)), any(s["raw"] for s in steps))
+            for c in cmds:
+                opcount[c[0] + (":" + c[1] if c[0] == "trace" else "")] = opcount.get(c[0] + (":" + c[1] if c[0] == "trace" else ""), 0) + 1
+            for (idx, msg, sig) in oracle_fn(dp, cmds, steps, upto)[:1]:
+                if sig is not None and run.match_known(sig):
+                    run.violation(msg, {}, signature=sig)
+                    continue
+                found_input = True
+                run.violation(msg, dict(dp=dp, history=[cmd_json(c) for c in cmds[:idx + 1]], failing_step=idx,
+                                        observed=steps[idx]["raw"][:6], exception=steps[idx]["exc"]), signature=sig)
     # correspondence -----------------------------------------------------------------
     validated = 0
     if compare_model:
@@ -181,7 +225,7 @@ def run_builder_check(pid, gen_cases, oracle_fn, fields=None, truncate_at_leak=T
                     validated += 1
     proof_broken_violation(run, st, found_input)
     run.cov["rule"] = rule + " non-trivial = history with >= 3 distinct call kinds and >= 1 emitted line; distinct = distinct (dp, history)."
-    ev = dict(input_distribution=dict(op_kinds=opcount, exceptions=exccount, history_length_buckets=lens,
+    ev = dict(oracle_only_histories=n_oracle_only, input_distribution=dict(op_kinds=opcount, exceptions=exccount, history_length_buckets=lens,
                                       histories_truncated_at_a_C05_leak=truncated),
               traces_validated_against_impl=validated)
     if extra_evidence:
